@@ -85,6 +85,45 @@ pub fn generate(em: &mut Emitter, seed: u64, thorough: bool) {
             }
         }
     }
+    // (2b) loops that go around k times and then leave an arbitrary value as the exit condition,
+    //      alone and nested inside if / while / exec / call / repeat
+    for iters in [1u64, 2, 3, 5] {
+        for &c2 in &conds {
+            let lp = format!("push.{iters} push.1 while.true push.1 sub dup neq.0 if.true push.1 else push.{c2} end end drop");
+            let progs = [
+                (format!("begin {lp} end"), "plain"),
+                (format!("begin push.1 if.true {lp} else push.3 end end"), "in-if"),
+                (format!("begin push.2 push.1 while.true {lp} push.1 sub dup neq.0 end drop end"), "in-while"),
+                (format!("proc.f {lp} end begin exec.f exec.f end"), "in-exec"),
+                (format!("proc.f {lp} end begin call.f end"), "in-call"),
+                (format!("begin repeat.2 {lp} end end"), "in-repeat"),
+            ];
+            for (src, kind) in progs.iter() {
+                let p = match assemble(None, src, false) {
+                    Ok(p) => p,
+                    Err(e) => {
+                        em.oracle_failures.push(format!("C06 source does not assemble: {} :: {}", src, e));
+                        continue;
+                    }
+                };
+                let r = exec_case(em, &p, &[], &[], Some(5000), "");
+                decided += 1;
+                let expect_fail = c2 != 0;
+                if c2 == 1 {
+                    // never exits: stopped by the cycle limit, which is a failure as well
+                }
+                if expect_fail && r.ok {
+                    em.oracle_failures.push(format!(
+                        "C06 non-binary condition accepted (while, {} after {} iterations, exit value {}): `{}` -> {}",
+                        kind, iters, c2, src, &r.answer[..r.answer.len().min(60)]
+                    ));
+                }
+                if !expect_fail && !r.ok {
+                    em.oracle_failures.push(format!("C06 binary loop conditions rejected ({} after {} iterations): `{}` -> {}", kind, iters, src, r.answer));
+                }
+            }
+        }
+    }
     em.stat("decision_point_programs", decided);
 
     // (3) repeat.n == n textual copies ; exec.f == body pasted (procedures without locals)
